@@ -263,6 +263,8 @@ def judge_c07(spec, res, kind, data_text, data_time, normalise_time):
     got = sorted(d["pos"] for d in P.dots)
     if any(d["orient"] != geo.orient for d in P.dots):
         probs.append({"rule": "dot-off-axis-line", "orient": [d["orient"] for d in P.dots][:5]})
+    if any(abs(d.get("across", 0.0)) > 1e-9 for d in P.dots):
+        probs.append({"rule": "dot-off-axis-line", "across": [d.get("across", 0.0) for d in P.dots][:5]})
     if exp is None:
         if any(abs(g) > tol_pos for g in got):
             probs.append({"rule": "degenerate-domain-dots-not-at-axis-start", "dots": got[:5]})
